@@ -35,7 +35,14 @@ func init() {
 			"task is cancelled by the failure of a sibling in its caller's dependency group, a tolerant ancestor swallows that failure, and a caller outside the " +
 			"group — later, or concurrently under --parallel / as a sibling dependency — must observe that the execution did not succeed); guard-pairs (every " +
 			"guard outcome of one task drawn independently: the order of the guards decides the result); prompt-slots (confirmed prompts under --concurrency " +
-			"with --parallel calls, sibling dependencies and nested calls competing for the slots)"}
+			"with --parallel calls, sibling dependencies and nested calls competing for the slots); defer-call-vars (deferred task: entries that pass the exit " +
+			"code, a variable of the deferring task, a literal or nothing, some with a templated name, below tolerant callers that run the task " +
+			"again); once-group (several different deduplicated tasks reached in one invocation, every other group in the included file); many-refs " +
+			"(acyclic programs with >= 1000 references to one task: binary tree of depth 10, for: loop, run: once callee — open finding, the call limit " +
+			"counts references). What a reference passes as variable V (nothing, a literal, a variable of the referrer, the referrer's own V, for deferred " +
+			"calls the exit code) is program data; every command prints the V it sees and the driver compares it with the value computed beside the " +
+			"acceptor (verdict C02v). Key discipline (verdict C06k): one key per run: once task, one per (when_changed task, V), none shared by two " +
+			"tasks. The value checked against enum: is rendered as a string, a YAML number, a boolean, or passed as a number by every reference"}
 }
 
 // ---- abstract program (mirrors TaskModel.Sched.TaskDef)
